@@ -94,7 +94,11 @@ PickA == \E ch \in ChainsA, k \in 1..Len(TRCsA), t \in Times :
 PickB == \E i \in 1..Len(Timelines), D \in ChainSetsB, F \in ChainSetsB :
             /\ Cardinality(D) + Cardinality(F) <= 2
             /\ cs' = [kind |-> "provider", tl |-> i, db |-> D, remote |-> F]
-Next == cs.kind = "init" /\ (PickA \/ PickB)
+\* TRC update during operation: the store holds S1 and the chains D; chains are requested, then S2
+\* (time line tl) arrives through NotifyTRC, then chains are requested again
+PickH == \E i \in {k \in 1..Len(Timelines) : Timelines[k].two}, D \in ChainSetsB :
+            cs' = [kind |-> "history", tl |-> i, db |-> D, remote |-> {}]
+Next == cs.kind = "init" /\ (PickA \/ PickB \/ PickH)
 Spec == Init /\ [][Next]_vars
 
 -----------------------------------------------------------------------------
@@ -113,6 +117,13 @@ CodeActive(tl) == LET L == LatestT(tl) IN
 CodeProvides(tl, ch) == \E T \in CodeActive(tl) : CodeVerify(CertsB, ch, T, 0)
 
 SoundA == cs.kind = "verify" => (CodeVerify(CertsA, cs.chain, TRCsA[cs.trc], cs.t) => ChainOK(CertsA, cs.chain, TRCsA[cs.trc], cs.t))
+SoundH == cs.kind = "history" =>
+            LET S1 == PredT(Timelines[cs.tl])
+                onlyS1 == [Timelines[cs.tl] EXCEPT !.two = FALSE] IN
+            \A ch \in cs.db :
+               /\ CodeProvides(onlyS1, ch) => ProviderOK(CertsB, ch, S1, S1, FALSE, 0)
+               /\ CodeProvides(Timelines[cs.tl], ch) =>
+                     ProviderOK(CertsB, ch, LatestT(Timelines[cs.tl]), S1, TRUE, 0)
 SoundB == cs.kind = "provider" =>
             \A ch \in cs.db \cup cs.remote :
                CodeProvides(Timelines[cs.tl], ch) =>
@@ -124,7 +135,7 @@ SetSeq(S) == IF S = {} THEN <<>> ELSE
              IN f(S)
 Emit == cs.kind # "init" =>
           PrintT(<<"SCN", ToJson(IF cs.kind = "verify" THEN cs
-                                  ELSE [kind |-> "provider", tl |-> Timelines[cs.tl], db |-> SetSeq(cs.db), remote |-> SetSeq(cs.remote)])>>)
+                                  ELSE [kind |-> cs.kind, tl |-> Timelines[cs.tl], db |-> SetSeq(cs.db), remote |-> SetSeq(cs.remote)])>>)
 ASSUME PrintT(<<"POOLA", ToJson(PoolA)>>) /\ PrintT(<<"POOLB", ToJson(PoolB)>>)
           /\ PrintT(<<"TRCSA", ToJson([i \in 1..Len(TRCsA) |-> [TRCsA[i] EXCEPT !.roots = SetSeq(@)]])>>)
 =============================================================================
